@@ -1,5 +1,6 @@
 import PallasVerif.Stream
 import PallasVerif.Model.Kes
+import PallasVerif.Model.KesBytes
 /-! stream `kes` (C12) and its twin `kesfs` (C13, `Streams/Kesfs.lean`): sum / compact-sum KES on bytes.
     State: the current key (variant, depth, tree, period).
     ops: `keygen <sum|compact> <depth> <seed32>` -> `ok <pk> <key buffer>` | `update` -> `ok <key buffer>` / `err nomore` |
@@ -11,6 +12,8 @@ open PallasVerif PallasVerif.Kes
 structure St where
   compact : Bool
   sk : SK conc
+  /-- the key buffer as the slice-level transcription (`Model/KesBytes.lean`) leaves it -/
+  buf : Bytes
   lastSig : Bytes := []
 
 def flipBit (v : Bytes) (n : Nat) : Bytes :=
@@ -37,24 +40,25 @@ def step (st : Option St) (toks : List String) : Option St × String :=
     | some d, some seed =>
       if seed.length = 32 ∧ (v = "sum" ∨ v = "compact") then
         let r := skKeygen conc d seed
-        (some { compact := v = "compact", sk := r.1 }, "ok " ++ Tok.hex r.2 ++ " " ++ Tok.hex (skBytes r.1))
+        let b := skKeygenBytes d (List.replicate (keySize d + 4) 0) seed
+        (some { compact := v = "compact", sk := r.1, buf := b.1 }, "ok " ++ Tok.hex b.2 ++ " " ++ Tok.hex b.1)
       else (st, "bad-op")
     | _, _ => (st, "bad-op")
   | ["update"], some s =>
-    match skUpdate conc s.sk with
-    | some sk' => (some { s with sk := sk' }, okHex (skBytes sk'))
-    | none => (st, "err nomore")
+    match skUpdate conc s.sk, skUpdateBytes s.sk.depth s.buf with
+    | some sk', some b' => (some { s with sk := sk', buf := b' }, okHex b')
+    | none, none => (st, "err nomore")
+    | _, _ => (st, "model-inconsistent")
   | ["period"], some s => (st, "ok " ++ toString s.sk.period)
   | ["topk"], some s => (st, okHex (toPk conc s.sk.key))
   | ["sign", m], some s =>
     match Tok.unhex m with
     | some m =>
       if s.compact then
-        match csign conc s.sk.depth s.sk.key m s.sk.period with
-        | some sg => (some { s with lastSig := cSigBytes sg }, okHex (cSigBytes sg))
-        | none => (st, "panic")
+        let b := csignFromSlice s.sk.depth (s.buf.take (keySize s.sk.depth)) m s.sk.period
+        (some { s with lastSig := b }, okHex b)
       else
-        let b := sumSigBytes (sign conc s.sk.key m)
+        let b := signFromSlice s.sk.depth (s.buf.take (keySize s.sk.depth)) m
         (some { s with lastSig := b }, okHex b)
     | none => (st, "bad-op")
   | ["verify", t, pk, m, sg], some s =>
